@@ -660,8 +660,7 @@ namespace svmon
           break;
         case OP_ASSIGN_MOVE:
         {
-          if (static_cast<void *> (&sd) == static_cast<void *> (&ss)) break;
-          VD& d = sd.get ();
+          VD& d = sd.get ();   // self move-assignment is allowed: the result must be a valid container
           if constexpr (same)
           {
             if (op.flag)
@@ -678,8 +677,7 @@ namespace svmon
         case OP_SWAP:
           if constexpr (same)
           {
-            if (static_cast<void *> (&sd) == static_cast<void *> (&ss)) break;
-            VD& d = sd.get ();
+            VD& d = sd.get ();   // self-swap is allowed (a no-op for std::vector)
             r.noexcept_declared = noexcept (d.swap (s));
             if (op.flag) r.out = guarded ([&] { using std::swap; swap (d, s); });
             else r.out = guarded ([&] { d.swap (s); });
